@@ -126,12 +126,42 @@ ml::params_t make_fit_params(vt::Rng& rng, int64_t& folds, std::string& desc)
     return ml::params_t{}.splitter(*splitter).tuner(*tuner).solver(*solver);
 }
 
+// the samples a model is fitted on: all of the dataset, or a strict subset of it (a prefix, or scattered samples)
+indices_t fit_samples(vt::Rng& rng, const tensor_size_t n)
+{
+    if (rng.coin())
+    {
+        return arange(0, n);
+    }
+    if (rng.coin())
+    {
+        return arange(0, std::max<tensor_size_t>(12, (2 * n) / 3));
+    }
+    std::vector<tensor_size_t> chosen;
+    for (tensor_size_t s = 0; s < n; ++s)
+    {
+        if (rng.coin(3, 4))
+        {
+            chosen.push_back(s);
+        }
+    }
+    if (chosen.size() < 12U)
+    {
+        return arange(0, n);
+    }
+    indices_t samples(static_cast<tensor_size_t>(chosen.size()));
+    for (size_t i = 0; i < chosen.size(); ++i)
+    {
+        samples(static_cast<tensor_size_t>(i)) = chosen[i];
+    }
+    return samples;
+}
+
 template <class tmodel, class textra>
-void report(const std::string& model_name, tmodel& model, const problem_t& p, const loss_t& loss, const ml::params_t& fit_params,
-            const ml::result_t& result, int64_t max_rounds)
+void report(const std::string& model_name, tmodel& model, const problem_t& p, const indices_t& samples, const loss_t& loss,
+            const ml::params_t& fit_params, const ml::result_t& result, int64_t max_rounds)
 {
     const auto& dataset = *p.dataset;
-    const auto  samples = arange(0, dataset.samples());
     const auto  splits  = fit_params.splitter().split(samples);
 
     vt::put(vt::J("Fit").s("model", model_name).i("folds", result.folds()).i("trials", result.trials()).i("maxRounds", max_rounds));
@@ -270,9 +300,9 @@ void gboost_case(vt::Rng& rng, int64_t icase)
     const auto fit_params = make_fit_params(rng, folds, desc);
 
     vt::put(vt::J("Reset").i("case", icase).s("desc", desc).i("samples", p.dataset->samples()));
-    const auto samples = arange(0, p.dataset->samples());
+    const auto samples = fit_samples(rng, p.dataset->samples());
     const auto result  = model.fit(*p.dataset, samples, *loss, fit_params);
-    report<gboost_model_t, gboost::result_t>("gboost", model, p, *loss, fit_params, result, max_rounds);
+    report<gboost_model_t, gboost::result_t>("gboost", model, p, samples, *loss, fit_params, result, max_rounds);
 }
 
 void linear_case(vt::Rng& rng, int64_t icase)
@@ -291,9 +321,9 @@ void linear_case(vt::Rng& rng, int64_t icase)
     int64_t     folds = 2;
     const auto  fit_params = make_fit_params(rng, folds, desc);
     vt::put(vt::J("Reset").i("case", icase).s("desc", desc).i("samples", p.dataset->samples()));
-    const auto samples = arange(0, p.dataset->samples());
+    const auto samples = fit_samples(rng, p.dataset->samples());
     const auto result  = model->fit(*p.dataset, samples, *loss, fit_params);
-    report<linear_t, linear::result_t>("linear", *model, p, *loss, fit_params, result, 0);
+    report<linear_t, linear::result_t>("linear", *model, p, samples, *loss, fit_params, result, 0);
 }
 } // namespace
 
